@@ -901,6 +901,17 @@ func (fx *fnExec) evalCall(x ECall, env *SpecEnv) SV {
 			key = "string"
 		}
 		return Sc{tAnd(tNot(tEq(v, intLit64(0))), tEq(app(SInt, "dyn$type", v), intLit64(int64(fx.v.typeID(key))))), nil}
+	case "f_lit":
+		// f_lit("1/2"): the floating-point constant written so by go/constant's ExactString (1, 100, 1/2, ...): the
+		// same uninterpreted constant the translation of a Go literal of that value uses
+		k, ok := x.Args[0].(EStr)
+		if !ok {
+			panic(vcErr("f_lit(\"exact\")"))
+		}
+		return Sc{fx.fltConst(k.V), types.Typ[types.Float64]}
+	case "f_lt", "f_le":
+		fx.needFlt()
+		return Sc{app(SBool, "f."+strings.TrimPrefix(x.Fun, "f_"), fx.sc(fx.evalSpec(x.Args[0], env), SFlt), fx.sc(fx.evalSpec(x.Args[1], env), SFlt)), types.Typ[types.Bool]}
 	case "f_ofint", "f_toint", "f_add", "f_mul", "f_div", "f_sub":
 		// floating-point operations as the code path models them: uninterpreted functions over an abstract sort
 		// (the SAME symbols the translation of Go float expressions uses, so equal operands give equal results)
@@ -922,6 +933,11 @@ func (fx *fnExec) evalCall(x ECall, env *SpecEnv) SV {
 		v := fx.sc(fx.evalSpec(x.Args[1], env), SInt)
 		fx.declareFun("unbox$"+k.V, []string{SInt}, SInt)
 		return Sc{app(SInt, "unbox$"+k.V, v), nil}
+	case "unbox_str":
+		v := fx.sc(fx.evalSpec(x.Args[0], env), SInt)
+		fx.needStr()
+		fx.declareFun("unbox$string", []string{SInt}, SStr)
+		return Sc{app(SStr, "unbox$string", v), types.Typ[types.String]}
 	case "unbox_int":
 		v := fx.sc(fx.evalSpec(x.Args[0], env), SInt)
 		so := fx.isort()
